@@ -28,7 +28,8 @@ MANIFEST = dict(
          'of the last two bytes with crc16 of the first 34 (any other length rejected), and - by exhaustion over all 48 x 63 substitutions using the linearity of '
          'CRC-16/XMODEM - that a single replaced base64 character can never yield an accepted text.'
          ' A parsed address renders every variant asked for (explicit arguments win over parsed flags).'
-         ' __hash__ agrees with __eq__ semantically: equal addresses with every flag inverted hash alike, and an address whose workchain was re-assigned hashes like a fresh one.',
+         ' __hash__ agrees with __eq__ semantically: equal addresses with every flag inverted hash alike, and an address whose workchain was re-assigned hashes like a fresh one.'
+         ' A text refused for its checksum is refused again when presented a second and third time.',
     note='trusted: interpreter, rope model of bytes, the contract of base64 (48 characters <-> 36 bytes, 6 bits per character, both alphabets accepted by urlsafe_b64decode), C18 for crc16.',
     design_ref='DESIGN.md section 4 C13')
 
